@@ -139,7 +139,19 @@ class FlatMem(Slice):
         rres, rmem = ref_ops(kind, size, preset, ops_n)
         if ires != rres or imem != rmem:
             k = next((j for j in range(len(ires)) if ires[j] != rres[j]), None)
-            findings.append(("violation", f"op {k} {ops_n[k] if k is not None else ''}: impl {ires[k] if k is not None else imem} != reference byte store {rres[k] if k is not None else rmem}"))
+            # what a write that is only PARTLY outside the valid range leaves behind is not fixed by the property ("an access lying
+            # entirely outside the valid range changes nothing"); the reference writes the in-range prefix as the code does, so after
+            # such a write a difference is a deviation from the model, not a violation
+            cw = 8 if kind == 0 else 16
+            lo, hi = (2 ** 14, 2 ** 32) if kind == 0 else (0, size)
+            def partial(op):
+                if op[0] != 1:
+                    return False
+                addrs = [(op[2] + i) % 2 ** 32 if kind == 0 else op[2] + i for i in range(op[1] // cw)]
+                inr = [lo <= a < hi for a in addrs]
+                return any(inr) and not all(inr)
+            upto = len(ops_n) if k is None else k + 1
+            findings.append(("disagreement" if any(partial(o) for o in ops_n[:upto]) else "violation", f"op {k} {ops_n[k] if k is not None else ''}: impl {ires[k] if k is not None else imem} != reference byte store {rres[k] if k is not None else rmem}"))
         cl = {"rv" if kind == 0 else "toy"}
         written = set()
         for op, r_ in zip(ops_n, ires):
